@@ -2,29 +2,28 @@ import Amshan.Lemmas.GenCodeBase
 import Amshan.GeneratedCodeBackOff
 import Amshan.Model.BackOff
 /- Per-property part of the GeneratedCode equivalence lemmas (split so that a change to one translated
-   function only breaks the proofs of the property that function belongs to). -/
+   function only breaks the proofs of the property that function belongs to).
+
+   The proofs are semantic: they unfold the generated definition and decide the resulting statement about
+   `if`s, Booleans, `max`/`min` and linear arithmetic (`gen_decide`: `grind`), so they do not depend on how the source spells the
+   computation (conditional expression or `if` statement, temporaries, operand order, `>= 1` or `> 0`, ...). -/
 namespace Amshan.GenLemmas
 open Amshan.GenCode Amshan.Gen
 
 /-! ### back-off -/
 
 theorem backoffFailure_eq (d : Nat) : backoffFailure d = if d * 2 = 0 then 1 else d * 2 := by
-  unfold backoffFailure
-  simp only [Id.run, beq_iff_eq]
-  split <;> rfl
+  unfold backoffFailure; gen_decide
 
-theorem backoffReset_eq (d : Nat) : backoffReset d = 0 := rfl
+theorem backoffReset_eq (d : Nat) : backoffReset d = 0 := by
+  unfold backoffReset; gen_decide
 
 theorem backoffCurrent_eq (d m : Nat) : backoffCurrent d m = if d < m then d else m := by
-  unfold backoffCurrent
-  simp only [decide_eq_true_eq]
-  rfl
+  unfold backoffCurrent; gen_decide
 
 theorem getBackOffTime_eq (d : Nat) (flag : Bool) (sec : Nat) :
     GenCode.getBackOffTime d flag sec =
       if (decide (d > 0) || flag) then max d (if flag then sec else 0) else 0 := by
-  unfold GenCode.getBackOffTime
-  simp only [Id.run]
-  split <;> rfl
+  unfold GenCode.getBackOffTime; gen_decide
 
 end Amshan.GenLemmas
